@@ -141,7 +141,9 @@ def r2_mirrors(ctx):
             # per-arm comparison of the operational dict and of the type dispatch
             def arms(f, side):
                 out = {}
-                for n in walk_no_nested(f.node):
+                from .common import through_locals
+                fdefs = local_defs(f.node)
+                for n in walk_no_nested(through_locals(f.node, fdefs)):     # hoisted sub-expressions (a lower-cased type) written out
                     if isinstance(n, ast.If):
                         cur = n
                         while isinstance(cur, ast.If):
